@@ -30,6 +30,7 @@ import (
 	"github.com/blinklabs-io/gouroboros/ledger/common"
 	"github.com/blinklabs-io/gouroboros/ledger/conway"
 
+	"verifharness/cborx"
 	"verifharness/core"
 	lg "verifharness/ledgergen"
 )
@@ -37,7 +38,7 @@ import (
 func init() {
 	core.Register(&core.Monitor{
 		ID:            "C33",
-		Rule:          "exhaustive truth table: protocol major 0..20 x withdrawal vectors of 1..3 registered key-hash reward accounts with amounts in {0,1,10^6}^n x ledger state (every per-account delegated/undelegated mask, plus 'DRepDelegationState capability missing') x {phase-1-valid, phase-2-invalid} x {Conway, Dijkstra}; each cell observed at the withdrawals rule alone and through the era's full rule list; a case is non-trivial when no unrelated rule interfered (outcome is nil or a delegation-class error); distinct by (era, pv, amounts, mask, capability, validity)",
+		Rule:          "exhaustive truth table: protocol major 0..20 x withdrawal vectors of 1..3 registered key-hash reward accounts with amounts in {0,1,10^6}^n x ledger state (every per-account delegated/undelegated mask, plus 'DRepDelegationState capability missing') x {phase-1-valid, phase-2-invalid} x {Conway, Dijkstra}; plus, for one account, a certificate in the SAME transaction (vote deleg, stake+vote deleg, vote reg-deleg, stake+vote reg-deleg, stake deleg, reg, unreg, DRep reg with the same key hash) for the withdrawing credential or, as control, another credential x PV 0..20 x {delegated, undelegated, capability missing} x amount {0, 10^6} x {Conway, Dijkstra} - the expected verdict ignores in-transaction certificates (the gate refers to the state before they are applied); where the full list rejects such a transaction for an unrelated reason the cell is judged at the rule alone (counters in_tx_cert_*); each cell observed at the withdrawals rule alone and through the era's full rule list; a case is non-trivial when no unrelated rule interfered (outcome is nil or a delegation-class error); distinct by (era, pv, amounts, mask, capability, validity)",
 		MinNontrivial: 5000,
 		Assumptions: []string{
 			"the withdrawing transaction built by ledgergen is valid in every other respect (pre-flight: accepted at PV 9, 10 and 12 when every account is delegated)",
@@ -120,10 +121,85 @@ type tcase struct {
 	delegated  []bool
 	capMissing bool
 	invalid    bool
+	// cert names a certificate carried by the same transaction ("" = none);
+	// certSame says whether it is for the withdrawing credential (amounts[0])
+	// or, as a control, for another credential.
+	cert     string
+	certSame bool
 }
 
 func (t tcase) String() string {
-	return fmt.Sprintf("era=%s pv=%d amounts=%v delegated=%v capability_missing=%v phase2_invalid=%v", t.era, t.pv, t.amounts, t.delegated, t.capMissing, t.invalid)
+	s := fmt.Sprintf("era=%s pv=%d amounts=%v delegated=%v capability_missing=%v phase2_invalid=%v", t.era, t.pv, t.amounts, t.delegated, t.capMissing, t.invalid)
+	if t.cert != "" {
+		s += fmt.Sprintf(" in_tx_certificate=%s for_%s_credential", t.cert, t.certTarget())
+	}
+	return s
+}
+
+func (t tcase) certTarget() string {
+	if t.certSame {
+		return "same"
+	}
+	return "other"
+}
+
+// certKinds are the certificates the surrounding transaction may carry. The
+// expected verdict of the withdrawal gate does not depend on any of them: the
+// gate looks at the ledger state the transaction is validated against, i.e.
+// before its own certificates are applied.
+var certKinds = []string{"vote-deleg", "stake-vote-deleg", "vote-reg-deleg", "stake-vote-reg-deleg", "stake-deleg", "reg", "unreg", "drep-reg"}
+
+var certPool = lg.Blake224([]byte("c33-pool"))
+
+const certDeposit = 2_000_000 // key deposit of DefaultParams; also used as DRep deposit here
+
+// addCert puts certificate kind for credential k into the transaction and
+// makes the ledger state / balance fit as far as the kind allows.
+func addCert(w *lg.World, s *lg.TxSpec, kind string, k lg.Key, same bool) (extraConsumed, extraProduced uint64) {
+	cred := lg.CredKey(k.Hash())
+	drep := lg.DRepAbstain()
+	pool := cborx.B(certPool[:])
+	w.State.Pools[certPool] = &common.PoolRegistrationCertificate{CertType: 3, Operator: common.PoolKeyHash(certPool)}
+	w.Params.DRepDeposit = certDeposit
+	needsRegistered := true
+	var n *cborx.Node
+	switch kind {
+	case "vote-deleg":
+		n = lg.CertVoteDeleg(cred, drep)
+	case "stake-vote-deleg":
+		n = cborx.A(cborx.U(10), cred, pool, drep)
+	case "vote-reg-deleg":
+		n = cborx.A(cborx.U(12), cred, drep, cborx.U(certDeposit))
+		extraProduced, needsRegistered = certDeposit, false
+	case "stake-vote-reg-deleg":
+		n = cborx.A(cborx.U(13), cred, pool, drep, cborx.U(certDeposit))
+		extraProduced, needsRegistered = certDeposit, false
+	case "stake-deleg":
+		n = lg.CertStakeDeleg(cred, certPool)
+	case "reg":
+		n = lg.CertReg(cred, certDeposit)
+		extraProduced, needsRegistered = certDeposit, false
+	case "unreg":
+		n = lg.CertUnreg(cred, certDeposit)
+		extraConsumed = certDeposit
+	case "drep-reg":
+		n = lg.CertDRepReg(cred, certDeposit)
+		extraProduced, needsRegistered = certDeposit, false
+	default:
+		panic("unknown certificate kind " + kind)
+	}
+	s.Certs = append(s.Certs, n)
+	if !same {
+		// the control credential: registered exactly when the kind needs it
+		// (the withdrawing credential is always registered, so registering
+		// kinds for it are refused by the delegation rule of the full list –
+		// those cells are judged at the withdrawals rule alone)
+		if needsRegistered {
+			w.State.RegisterStake(k.Hash(), 0)
+		}
+		s.Signers = append(s.Signers, k)
+	}
+	return
 }
 
 var stakeKeys = []lg.Key{lg.NewKey("stake-0"), lg.NewKey("stake-1"), lg.NewKey("stake-2")}
@@ -147,7 +223,15 @@ func build(t tcase) (*lg.World, *lg.TxSpec) {
 			w.State.DRepDelegations[k.Hash()] = &common.Drep{Type: common.DrepTypeAbstain}
 		}
 	}
-	if err := w.Rebalance(s, 0, 0); err != nil {
+	var exC, exP uint64
+	if t.cert != "" {
+		k := stakeKeys[0]
+		if !t.certSame {
+			k = stakeKeys[2]
+		}
+		exC, exP = addCert(w, s, t.cert, k, t.certSame)
+	}
+	if err := w.Rebalance(s, exC, exP); err != nil {
 		panic(err)
 	}
 	if t.invalid && t.era == lg.Conway {
@@ -206,14 +290,31 @@ func run(c *core.Ctx) {
 						for i := range d {
 							d[i] = mask>>i&1 == 1
 						}
-						cases = append(cases, tcase{e, pv, v, d, false, invalid})
+						cases = append(cases, tcase{era: e, pv: pv, amounts: v, delegated: d, invalid: invalid})
 					}
-					cases = append(cases, tcase{e, pv, v, make([]bool, n), true, invalid})
+					cases = append(cases, tcase{era: e, pv: pv, amounts: v, delegated: make([]bool, n), capMissing: true, invalid: invalid})
 				}
 			}
 		}
 	}
 	c.Note("truth_table_cells", len(cases))
+	plainCells := len(cases)
+	// the transaction around the withdrawal varies too: one certificate for the
+	// withdrawing credential (or, as control, another one) in the same tx
+	for _, e := range []lg.Era{lg.Conway, lg.Dijkstra} {
+		for pv := uint(0); pv <= 20; pv++ {
+			for _, kind := range certKinds {
+				for _, same := range []bool{true, false} {
+					for _, amount := range []uint64{0, 1_000_000} {
+						for st := 0; st < 3; st++ { // delegated, undelegated, capability missing
+							cases = append(cases, tcase{era: e, pv: pv, amounts: []uint64{amount}, delegated: []bool{st == 0}, capMissing: st == 2, cert: kind, certSame: same})
+						}
+					}
+				}
+			}
+		}
+	}
+	c.Note("cells_with_in_tx_certificate", len(cases)-plainCells)
 	c.Note("withdrawal_vectors", len(vectors))
 
 	ruleFn := conway.UtxoValidateWithdrawals
@@ -276,6 +377,12 @@ func run(c *core.Ctx) {
 			if got == clsOther {
 				clean = false
 				c.Count("other_error:"+o.site+":"+lg.ErrType(o.err), 1)
+				if t.cert != "" && strings.HasSuffix(o.site, "-list") {
+					// unrelated rejection by another rule of the list (e.g. registering
+					// an already registered credential): this cell is judged at the
+					// withdrawals rule alone
+					c.Count("in_tx_cert_full_list_unrelated_rejection_rule_alone_judged:"+t.cert+":"+t.certTarget(), 1)
+				}
 				if t.invalid && strings.HasPrefix(o.site, "rule/") {
 					// the statement: phase-2-invalid => the rule says nothing
 					c.Violation("C33:"+o.site+":invalid-tx-not-skipped", "withdrawals rule returned an error for a phase-2-invalid transaction: "+o.err.Error(), witness(t, built, o.site, want, got, o.err))
@@ -293,6 +400,9 @@ func run(c *core.Ctx) {
 				key := fmt.Sprintf("C33:%s:%s->%s:%s", o.site, want, got, band(t.pv))
 				if t.invalid {
 					key += ":phase2-invalid"
+				}
+				if t.cert != "" {
+					key += ":in-tx-cert:" + t.cert + ":" + t.certTarget() + "-credential"
 				}
 				c.Violation(key, fmt.Sprintf("%s: truth table says %q, observed %q (%s)", o.site, want, got, t), witness(t, built, o.site, want, got, o.err))
 				continue
@@ -313,7 +423,15 @@ func run(c *core.Ctx) {
 				}
 			}
 		}
-		if clean {
+		if t.cert != "" {
+			// the rule-alone observations always judge these cells
+			c.Distinct(t.era.String(), t.pv, fmt.Sprint(t.amounts), fmt.Sprint(t.delegated), t.capMissing, t.cert, t.certSame)
+			c.Count("in_tx_cert_cells:"+t.cert+":"+t.certTarget(), 1)
+			c.Count("in_tx_cert_expected:"+want, 1)
+			if clean {
+				c.Count("in_tx_cert_full_list_judged:"+t.cert+":"+t.certTarget(), 1)
+			}
+		} else if clean {
 			c.Distinct(t.era.String(), t.pv, fmt.Sprint(t.amounts), fmt.Sprint(t.delegated), t.capMissing, t.invalid)
 			c.Count("expected:"+want, 1)
 		}
@@ -335,6 +453,7 @@ func witness(t tcase, b *lg.Built, site, want, got string, err error) map[string
 	w := map[string]any{
 		"site": site, "era": t.era.String(), "protocol_major": t.pv, "withdrawal_amounts": t.amounts,
 		"delegated": t.delegated, "capability_missing": t.capMissing, "phase2_invalid": t.invalid,
+		"in_tx_certificate": t.cert, "in_tx_certificate_credential": t.certTarget(),
 		"expected": want, "observed": got, "tx_cbor": core.HexFull(b.Cbor),
 	}
 	if err != nil {
